@@ -20,9 +20,25 @@ PROP = {'streams': [('c08', 1200, 300000)],
               'api_add_is_add_static',
               'api_op_inv',
               'api_history_inv',
-              'refines_spec_partial'],
- 'assumptions': ['merge_policyset is covered by the correspondence and the harness oracle only (MergeInv, RefinesSpec, ApiProjection are stated as '
-                 '`def : Prop`, not proved)',
+              'refines_spec_partial',
+              'refines_spec',
+              'op_refines_spec',
+              'history_refines_spec',
+              'api_op_proj',
+              'api_projection',
+              'api_op_refines_spec',
+              'api_history_refines_spec',
+              'mergeInv_false',
+              'merge_inv',
+              'merge_no_panic_fail_unchanged',
+              'merge_renaming_ok',
+              'api_history_strict',
+              'merge_inv_api_histories',
+              'api_merge_inv',
+              'api_reachable_inv'],
+ 'assumptions': ["merge_policyset: the core merge is proved (merge_inv, for arguments satisfying the invariant of API-built sets; the statement with "
+                 "well-formedness only is refuted by mergeInv_false, a core-only slot-less-template counterexample); the API layer's merge is proved too (api_merge_inv, api_reachable_inv); a "
+                 "specification-level merge (the abstract Spec has no merge operation) is covered by the correspondence and the harness oracle only",
                  "core-only histories outside the public API's envelope (core link on a static policy's id, core add of a template-linked Policy, "
                  "slot-less template) are compared with the model but excluded from the statement's checks; they can break the invariant and reach "
                  'the panic in unlink',
@@ -32,7 +48,12 @@ TEXT = ('Lean theorems over mirrors of Template::link/check_binding/condition, o
  'add_template, link, unlink, remove_static, remove_template, merge_policyset) and of the public cedar_policy::PolicySet layer: link_eq_subst '
  '(evaluating a linked policy = evaluating the substituted static policy, by induction over expressions), link_ok_iff, the representation invariant '
  'and its preservation by every non-merge operation, failed operations change nothing, panic sites unreachable, histories, authorization = '
- 'authorization over the substituted static policies; tied to the code by a differential run over operation histories (both layers) plus an '
+ 'authorization over the substituted static policies; refines_spec / history_refines_spec / api_history_refines_spec (every non-merge operation, '
+ 'core and API, commutes with the abstraction to the abstract specification: after any history the set contains exactly the statics, templates and '
+ 'links the successful operations imply); api_projection (the API maps are exact projections of the core maps in every reachable state); merge_inv '
+ '(merge_policyset preserves the invariant of API-built sets, its unwrap is unreachable, a failed merge changes nothing; merge_renaming_ok: exactly '
+ 'the conflicting ids are renamed, to fresh distinct ids); api_merge_inv / api_reachable_inv (the merge of the API layer keeps the invariant and the '
+ 'projections, its unwraps are unreachable; invariant and projections hold in every state reachable by the six operations and merges); tied to the code by a differential run over operation histories (both layers) plus an '
  'abstract-specification oracle evaluated on the implementation.',
- "proof over a hand-written model; merge_policyset's invariant preservation and the refinement of the abstract specification are stated but checked "
- 'only by the sampled/exhaustive-small-scope correspondence and the harness oracle')
+ 'proof over a hand-written model; a specification-level merge (what a merged set contains, abstractly) is checked only by the sampled/exhaustive-small-scope '
+ 'correspondence and the harness oracle; merge_inv needs the API envelope (no slot-less bare template): without it mergeInv_false is a counterexample')
